@@ -21,7 +21,10 @@ def main() -> None:
     for line in sys.stdin:
         req = json.loads(line)
         try:
-            obs = c19.run_case(req["case"], req["fw"])
+            if isinstance(req["case"], list):
+                obs = c19.run_multi(req["case"], req["fw"])
+            else:
+                obs = c19.run_case(req["case"], req["fw"])
         except BaseException as e:  # noqa: BLE001
             obs = {"err": "worker:" + type(e).__name__ + ":" + str(e)[:120]}
         out.write(json.dumps(obs) + "\n")
